@@ -55,7 +55,8 @@ DeepCases ==
     IN  {[fam |-> 11, names |-> f.names, text |-> Rep(<<40>>, k) \o nm \o Rep(<<41>>, k), style |-> "deep"] : k \in DeepDepths}
         \cup {[fam |-> 11, names |-> f.names, text |-> Rep(<<110,111,116,32>>, k) \o nm, style |-> "deep"] : k \in DeepDepths}
         \cup {[fam |-> 11, names |-> f.names, text |-> Rep(<<110,111,116,32,40>>, k) \o nm \o Rep(<<41>>, k), style |-> "deep"] : k \in DeepDepths}
-AllCases == IF Shard = 11 THEN DeepCases ELSE CasesOf(Shard)
+\* (shard = family number up to 10; 11 = the deep nestings; 12 = family 11)
+AllCases == IF Shard = 11 THEN DeepCases ELSE CasesOf(IF Shard = 12 THEN 11 ELSE Shard)
 
 ASSUME LET S == SetToSeq(AllCases)
        IN  ndJsonSerialize(Out, [i \in 1..Len(S) |-> [id |-> Shard * 1000000 + i] @@ S[i]])
